@@ -298,8 +298,10 @@ fn alt_sexp(n: &mut Namer, scrut: &Expr, typ: &ArcType, alt: &Alternative, out: 
 // `compile_correct_F1` speaks about; the driver answers the same question with `inF` itself and
 // the two counts are compared like any other correspondence case.
 
-/// `patOk` of a record pattern: closed row, the `GetOffset` path of compile_let_pattern, every
-/// field found in the type.
+/// `patOk` of a record pattern (closed row): on the `GetOffset` path of compile_let_pattern every
+/// field must be found in the type; on the `Split` path the pattern's bindings and the variables
+/// registered per type field must denote the same fields (`splitOk` of the Lean side, computed
+/// here on the real symbols).
 fn record_pat_in_frag(
     scrut_typ: &ArcType,
     fields: &[(gluon::base::ast::TypedIdent<Symbol>, Option<Symbol>)],
@@ -314,10 +316,37 @@ fn record_pat_in_frag(
     let mut field_iter = typ.row_iter();
     let n = field_iter.by_ref().count();
     let poly = **field_iter.current_type() != Type::EmptyRow;
-    if poly || !(fields.is_empty() || (n > 4 && n / fields.len() >= 4)) {
+    if poly {
         return false;
     }
-    fields.iter().all(|(f, _)| typ.row_iter().any(|x| x.name.name_eq(&f.name)))
+    // index of every pattern field in the type
+    let mut idx = vec![];
+    for (f, _) in fields {
+        match typ.row_iter().position(|x| x.name.name_eq(&f.name)) {
+            Some(i) => idx.push(i),
+            None => return false,
+        }
+    }
+    if fields.is_empty() || (n > 4 && n / fields.len() >= 4) {
+        return true;
+    }
+    // Split path: one variable per field of the type (first pattern field of that name)
+    let binder = |k: usize| fields[k].1.as_ref().unwrap_or(&fields[k].0.name);
+    let names: Vec<Option<&Symbol>> = typ
+        .row_iter()
+        .map(|tf| fields.iter().position(|t| t.0.name.name_eq(&tf.name)).map(|k| binder(k)))
+        .collect();
+    for k in 0..fields.len() {
+        let b = binder(k);
+        // slot the compiler's scope resolves `b` to: the last type field registered under `b`
+        let slot = names.iter().rposition(|x| x.map_or(false, |s| s == b));
+        // field the pattern binds `b` to: the last pattern field with that binder
+        let last = (0..fields.len()).rev().find(|j| binder(*j) == b).map(|j| idx[j]);
+        if slot != last {
+            return false;
+        }
+    }
+    true
 }
 
 /// `counts`: (function bodies seen, function bodies inside the fragment); returns whether `e`
